@@ -502,3 +502,102 @@ class Check:
             self.cov.get("discharged", "-"), self.cov.get("obligations", "-"), self.cov.get("evaluations", "-")))
         sys.stdout.flush()
         return 1 if self.violations else 0
+
+
+# ----------------------------------------------------------------------------- real-encoder harness
+def gen_src_dir():
+    d = os.path.join(CACHE, "gen_src")
+    os.makedirs(d, exist_ok=True)
+    return d
+
+
+def e2e_exe(flavour="rel"):
+    """Compile harness/enc_e2e.c against the current tree's static libraries."""
+    sys.path.insert(0, os.path.join(VERIF, "xlate"))
+    import cfgfields
+    hdr = os.path.join(gen_src_dir(), "cfg_fields.h")
+    txt = cfgfields.xmacro_header()
+    if not os.path.exists(hdr) or open(hdr).read() != txt:
+        open(hdr, "w").write(txt)
+    return compile_harness("enc_e2e_" + flavour, [os.path.join(VERIF, "harness", "enc_e2e.c")],
+                           libs=["libSvtAv1Enc.a", "libSvtAv1Dec.a"], flavour=flavour,
+                           extra=["-I" + gen_src_dir()])
+
+
+def parse_e2e(out):
+    """Canonical lines -> dict of lists."""
+    r = {"PKT": [], "RECON": [], "DEC": [], "CMP": [], "ERR": [], "HEX": {}, "HDR": None, "END": None, "SETPARAM": None,
+         "CFG": {}, "TIMEOUT": False, "HDRHEX": None, "raw": out}
+    for line in out.split("\n"):
+        ws = line.split()
+        if not ws:
+            continue
+        k = ws[0]
+        try:
+            _parse_e2e_line(r, k, ws)
+        except (IndexError, ValueError):
+            pass     # a library log line that happens to start with one of our keywords
+    return r
+
+
+def _parse_e2e_line(r, k, ws):
+    if True:
+        if k == "PKT":
+            r["PKT"].append({"i": int(ws[1]), "pts": int(ws[2]), "dts": int(ws[3]), "flags": int(ws[4]), "pic_type": int(ws[5]),
+                             "qp": int(ws[6]), "size": int(ws[7]), "crc": ws[8], "luma_sse": int(ws[9]), "cb_sse": int(ws[10]),
+                             "cr_sse": int(ws[11]), "priv": int(ws[12])})
+        elif k == "RECON":
+            r["RECON"].append({"i": int(ws[1]), "pts": int(ws[2]), "size": int(ws[3]), "crc": ws[4], "flags": int(ws[5])})
+        elif k == "DEC":
+            r["DEC"].append({"i": int(ws[1]), "crc": ws[2], "w": int(ws[3]), "h": int(ws[4])})
+        elif k == "CMP":
+            r["CMP"].append((int(ws[1]), " ".join(ws[2:])))
+        elif k == "ERR":
+            r["ERR"].append(" ".join(ws[1:]))
+        elif k == "HEX":
+            r["HEX"][int(ws[1])] = ws[2] if len(ws) > 2 else ""
+        elif k == "HDR":
+            r["HDR"] = (int(ws[1]), ws[2])
+        elif k == "HDRHEX":
+            r["HDRHEX"] = ws[1] if len(ws) > 1 else ""
+        elif k == "END":
+            r["END"] = " ".join(ws[1:])
+        elif k == "SETPARAM":
+            r["SETPARAM"] = int(ws[1], 16)
+        elif k == "CFG":
+            r["CFG"][ws[1]] = int(ws[2])
+        elif k == "TIMEOUT":
+            r["TIMEOUT"] = True
+
+
+def run_e2e(args, flavour="rel", timeout=600, env=None):
+    """args: dict key->value (cfg.<field> allowed).  Returns parsed result (+ rc, crashed)."""
+    exe = e2e_exe(flavour)
+    argv = [exe] + ["%s=%s" % (k, v) for k, v in args.items()]
+    e = dict(os.environ)
+    e["ASAN_OPTIONS"] = "detect_leaks=0:abort_on_error=0:halt_on_error=1"
+    if env:
+        e.update(env)
+    try:
+        p = subprocess.run(argv, stdout=subprocess.PIPE, stderr=subprocess.PIPE, timeout=timeout, env=e)
+        out, err, rc = p.stdout.decode("utf-8", "replace"), p.stderr.decode("utf-8", "replace"), p.returncode
+    except subprocess.TimeoutExpired as ex:
+        out = (ex.stdout or b"").decode("utf-8", "replace")
+        err, rc = "[harness wall-clock timeout]", 124
+    r = parse_e2e(out)
+    r["rc"], r["stderr"], r["argv"] = rc, err[-3000:], " ".join(argv[1:])
+    r["crashed"] = rc not in (0, 3, 124)
+    r["hung"] = rc in (3, 124) or r["TIMEOUT"]
+    return r
+
+
+def e2e_signature(r):
+    """What must be identical between two runs that the properties call 'same output'."""
+    return (tuple((p["pts"], p["flags"], p["size"], p["crc"]) for p in r["PKT"]),
+            tuple(sorted((x["pts"], x["crc"]) for x in r["RECON"])))
+
+
+def run_parallel(fn, items, workers=None):
+    from concurrent.futures import ThreadPoolExecutor
+    with ThreadPoolExecutor(max_workers=workers or max(1, NCPU // 4)) as ex:
+        return list(ex.map(fn, items))
